@@ -7,6 +7,7 @@ package PKGNAME
 // and at the reply write (buffer locked). Oracle: invariants over the subject's ordered frames.
 
 import (
+	"sync/atomic"
 	"fmt"
 	"os"
 	"runtime"
@@ -145,6 +146,7 @@ type vfC01SubAttempt struct {
 	recover   bool
 	reqOffset uint64
 	reqEpoch  string
+	srvFailed atomic.Bool // Client.Subscribe returned an error: no subscribe push was sent for this attempt
 }
 
 func vfC01Run(t *testing.T, cs vfC01Case, out *vfC01Out, isKnown func(string) bool) string {
@@ -303,6 +305,25 @@ func vfC01Run(t *testing.T, cs vfC01Case, out *vfC01Out, isKnown func(string) bo
 		pendingWriteGate := false
 		var inflight []chan struct{}
 		waitInflight := func() {
+			if pendingWriteGate && len(inflight) > 0 {
+				// The subscribe may park inside its reply write holding the connection's write mutex; if the writer
+				// goroutine has a push to write at that moment it blocks on that mutex (not durably) and
+				// synctest.Wait would never return. Spin (bounded) until the subscribe finished or parked at a gate.
+				last := inflight[len(inflight)-1]
+				for i := 0; i < 3000000; i++ {
+					if len(w.Gates.AnyWaiting()) > 0 {
+						return
+					}
+					select {
+					case <-last:
+						vfSettle()
+						return
+					default:
+					}
+					runtime.Gosched()
+				}
+				return
+			}
 			vfSettle()
 		}
 		armGates := func(s vfC01Step) {
@@ -411,7 +432,12 @@ func vfC01Run(t *testing.T, cs vfC01Case, out *vfC01Out, isKnown func(string) bo
 					if a.recover {
 						opts = append(opts, WithRecoverSince(&StreamPosition{Offset: a.reqOffset, Epoch: a.reqEpoch}))
 					}
-					go func() { defer close(done); _ = conn.Client.Subscribe(ch, opts...) }()
+					go func() {
+						defer close(done)
+						if err := conn.Client.Subscribe(ch, opts...); err != nil {
+							a.srvFailed.Store(true)
+						}
+					}()
 				}
 				waitInflight()
 				if pendingWriteGate && w.Gates.Waiting("write:s") > 0 {
@@ -598,6 +624,9 @@ func vfC01Run(t *testing.T, cs vfC01Case, out *vfC01Out, isKnown func(string) bo
 				endSeg()
 			case r.Push != nil && r.Push.Channel == ch && r.Push.Subscribe != nil:
 				var a *vfC01SubAttempt
+				for serverIdx < len(serverAttempts) && serverAttempts[serverIdx].srvFailed.Load() {
+					serverIdx++ // a failed Client.Subscribe (error / insufficient state) sends no subscribe push
+				}
 				if serverIdx < len(serverAttempts) {
 					a = serverAttempts[serverIdx]
 				}
